@@ -106,6 +106,8 @@ class Compiler:
             l, p, _ = self.place(s[5:]); return ("move", l, p)
         if s.startswith("const "):
             return ("const", s[6:].strip(), [])
+        if re.match(r"^[A-Za-z_<{]", s) and "::" in s:
+            return ("const", s, [])          # zero-sized fn item / constructor printed as a bare path
         raise Unsupported("operand " + s)
 
     # ---------------------------------------------------------------- rvalues
